@@ -52,14 +52,18 @@ class C11(Check):
                   'hook pairs (remove_wf, remove_denote), add_hooks adds exactly the pair (addHooks_denote); after every '
                   'edit history the tree holds exactly the routes index, no name outlives its route, tree hooks = hooks '
                   'index outside removed prefixes (router_refines_maps), and the calls act on the three index maps as '
-                  'the finite-map spec (edits_on_maps); two histories leaving the same maps answer every path, name and '
-                  'rule lookup alike (history_eq_fresh) and the hooks delivered are exactly the pairs at the prefixes of '
+                  'the finite-map spec (edits_on_maps); registering the survivors of any edit history one call at a '
+                  'time on an empty router is always accepted and reproduces the routes map, the names map and the '
+                  'hooks map outside removed prefixes (fresh_same_maps, fresh_same_survivors), so the edited router '
+                  'answers every path, name and rule lookup as the router freshly built from its survivors, with no '
+                  'hypothesis about the survivors left (history_eq_fresh_built; history_eq_fresh for any two histories '
+                  'leaving the same maps), and the hooks delivered are exactly the pairs at the prefixes of '
                   'the matched pattern, outermost first, with the matched prefix length (hooks_fire_exactly). Model tied '
                   'to the code by differential runs of whole edit histories (random + exhaustive small scope with state '
-                  'merging). By correspondence only: that registering the survivors on an empty router reproduces the '
-                  'maps (the rebuilt router of the oracle), the 404 payload, rex selectors.')
+                  'merging). By correspondence only: the 404 payload, rex selectors.')
     level_note_extra = ('hooks at or below a removed prefix* are unspecified by the property and excluded; '
-                        'rebuild-from-survivors step (OPEN rebuild_same_survivors) by correspondence only')
+                        'the rebuild-from-survivors step is proved (fresh_same_maps: the former hypothesis '
+                        'SameSurvivors of history_eq_fresh_built is discharged for every history in the domain)')
     rule = ('edit histories (up to 40 of add / overwrite / rejected add / remove(rule) / remove(name) / '
             'remove(prefix*) / add_hook simple+partial / remove_hook) over rule universes with shared and split '
             'literal prefixes, wildcard siblings, filter clashes and hook-only prefixes, probed at random points '
@@ -72,8 +76,10 @@ class C11(Check):
                    'rex selectors (which rewrite the path and with it hook positions) are covered by '
                    'correspondence only, not by the fresh-router oracle',
                    're matching of the filter masks is taken from the running interpreter',
-                   'theorems: no filter answers with a rex selector (NoSel); history_eq_fresh takes the second history '
-                   '(e.g. the plain registration of the survivors) with the hypothesis that it leaves the same three maps']
+                   'theorems: no filter answers with a rex selector (NoSel); history_eq_fresh_built (edited router = '
+                   'router freshly built from its survivors) has only the domain hypotheses: the equality of the '
+                   'survivor maps is discharged by fresh_same_maps; the two-history form history_eq_fresh still takes '
+                   '"both histories leave the same three maps" as its hypothesis (that is its statement)']
 
     def __init__(self):
         self.stats = {}
